@@ -925,4 +925,303 @@ theorem verdictGo_replay (c : Cfg) (ex : Expiry) (hcf : c.countFails = (ex != .o
           · simp only [hc, Bool.false_eq_true, if_false]
             exact key _ hw0 htim0 hlab0 hun0 _ (ih _ _ cs hw0)
 
+/-! ### the logical clock: a failure lives for fail_timeout -/
+
+theorem tstep_now_mono (c : Cfg) (ft : Nat) (S S' : Timed) (e : TEvent) (h : tstep c ft S e = some S') :
+    S.now ≤ S'.now := by
+  cases e with
+  | tick d =>
+    simp only [tstep] at h
+    by_cases hc : S.pending.all (fun p => decide (S.now + d ≤ p.2 + ft)) = true
+    · simp only [hc, if_true, Option.some.injEq] at h; subst h; simp
+    · simp [hc] at h
+  | ev e =>
+    cases e with
+    | countFail t a =>
+      simp only [tstep] at h
+      cases hb : step c S.base (.countFail t a) with
+      | none => simp [hb] at h
+      | some b =>
+        simp only [hb] at h
+        cases hp : S.base.pcs[t]? with
+        | none => simp only [hp, Option.some.injEq] at h; subst h; exact Nat.le_refl _
+        | some pc =>
+          cases pc <;> (simp only [hp, Option.some.injEq] at h; subst h; exact Nat.le_refl _)
+    | timer hh =>
+      simp only [tstep] at h
+      cases hd : dueOf ft S.now hh S.pending with
+      | none => simp [hd] at h
+      | some p =>
+        simp only [hd] at h
+        cases hb : step c S.base (.timer hh) with
+        | none => simp [hb] at h
+        | some b => simp only [hb, Option.some.injEq] at h; subst h; exact Nat.le_refl _
+    | select t ch a =>
+      simp only [tstep, Option.map_eq_some_iff] at h
+      obtain ⟨b, _, rfl⟩ := h; exact Nat.le_refl _
+    | reserve t =>
+      simp only [tstep, Option.map_eq_some_iff] at h
+      obtain ⟨b, _, rfl⟩ := h; exact Nat.le_refl _
+    | finish t o =>
+      simp only [tstep, Option.map_eq_some_iff] at h
+      obtain ⟨b, _, rfl⟩ := h; exact Nat.le_refl _
+    | health f =>
+      simp only [tstep, Option.map_eq_some_iff] at h
+      obtain ⟨b, _, rfl⟩ := h; exact Nat.le_refl _
+
+/-- one step never drops a failure that is not yet due -/
+theorem tstep_keeps (c : Cfg) (ft : Nat) (S S' : Timed) (e : TEvent) (h : tstep c ft S e = some S')
+    (p : Nat × Nat) (hp : p ∈ S.pending) (hnd : S'.now < p.2 + ft) : p ∈ S'.pending := by
+  cases e with
+  | tick d =>
+    simp only [tstep] at h
+    by_cases hc : S.pending.all (fun p => decide (S.now + d ≤ p.2 + ft)) = true
+    · simp only [hc, if_true, Option.some.injEq] at h; subst h; exact hp
+    · simp [hc] at h
+  | ev e =>
+    cases e with
+    | countFail t a =>
+      simp only [tstep] at h
+      cases hb : step c S.base (.countFail t a) with
+      | none => simp [hb] at h
+      | some b =>
+        simp only [hb] at h
+        cases hpc : S.base.pcs[t]? with
+        | none => simp only [hpc, Option.some.injEq] at h; subst h; exact hp
+        | some pc =>
+          cases pc with
+          | failed hh =>
+            simp only [hpc, Option.some.injEq] at h; subst h
+            by_cases hcf : c.countFails = true
+            · simp only [hcf, if_true]; exact List.mem_append_left _ hp
+            · simp only [hcf, Bool.false_eq_true, if_false]; exact hp
+          | idle => simp only [hpc, Option.some.injEq] at h; subst h; exact hp
+          | selected _ => simp only [hpc, Option.some.injEq] at h; subst h; exact hp
+          | forwarding _ => simp only [hpc, Option.some.injEq] at h; subst h; exact hp
+          | done => simp only [hpc, Option.some.injEq] at h; subst h; exact hp
+    | timer hh =>
+      simp only [tstep] at h
+      cases hd : dueOf ft S.now hh S.pending with
+      | none => simp [hd] at h
+      | some q =>
+        simp only [hd] at h
+        cases hb : step c S.base (.timer hh) with
+        | none => simp [hb] at h
+        | some b =>
+          simp only [hb, Option.some.injEq] at h; subst h
+          have hq := List.find?_some hd
+          simp only [Bool.and_eq_true, decide_eq_true_eq] at hq
+          have hne : p ≠ q := by
+            intro heq; subst heq
+            simp only at hnd
+            omega
+          exact (List.mem_erase_of_ne hne).mpr hp
+    | select t ch a =>
+      simp only [tstep, Option.map_eq_some_iff] at h
+      obtain ⟨b, _, rfl⟩ := h; exact hp
+    | reserve t =>
+      simp only [tstep, Option.map_eq_some_iff] at h
+      obtain ⟨b, _, rfl⟩ := h; exact hp
+    | finish t o =>
+      simp only [tstep, Option.map_eq_some_iff] at h
+      obtain ⟨b, _, rfl⟩ := h; exact hp
+    | health f =>
+      simp only [tstep, Option.map_eq_some_iff] at h
+      obtain ⟨b, _, rfl⟩ := h; exact hp
+
+theorem trun_now_mono (c : Cfg) (ft : Nat) : ∀ (es : List TEvent) (S S' : Timed), trun c ft S es = some S' → S.now ≤ S'.now := by
+  intro es
+  induction es with
+  | nil => intro S S' h; simp only [trun, Option.some.injEq] at h; subst h; exact Nat.le_refl _
+  | cons e es ih =>
+    intro S S' h
+    simp only [trun] at h
+    cases hs : tstep c ft S e with
+    | none => simp [hs] at h
+    | some S1 =>
+      simp only [hs] at h
+      exact Nat.le_trans (tstep_now_mono c ft S S1 e hs) (ih S1 S' h)
+
+theorem trun_keeps (c : Cfg) (ft : Nat) : ∀ (es : List TEvent) (S S' : Timed), trun c ft S es = some S' →
+    ∀ p ∈ S.pending, S'.now < p.2 + ft → p ∈ S'.pending := by
+  intro es
+  induction es with
+  | nil => intro S S' h p hp _; simp only [trun, Option.some.injEq] at h; subst h; exact hp
+  | cons e es ih =>
+    intro S S' h p hp hnd
+    simp only [trun] at h
+    cases hs : tstep c ft S e with
+    | none => simp [hs] at h
+    | some S1 =>
+      simp only [hs] at h
+      have hmono := trun_now_mono c ft es S1 S' h
+      exact ih S1 S' h p (tstep_keeps c ft S S1 e hs p hp (by omega)) hnd
+
+/-- invariant of the timed runs: the untimed invariant, every pending failure is counted by the
+failure bookkeeping of its backend, and none is overdue -/
+structure TWF (c : Cfg) (ft : Nat) (S : Timed) : Prop where
+  base : WF c S.base
+  count : ∀ h, pendingOn S h = getN S.base.timers h
+  notLate : ∀ p ∈ S.pending, S.now ≤ p.2 + ft
+
+theorem twf_init (c : Cfg) (ft n : Nat) : TWF c ft (Timed.init c n) := by
+  refine ⟨wf_init c n, ?_, ?_⟩
+  · intro h
+    unfold pendingOn Timed.init getN State.init
+    simp only [List.filter_nil, List.length_nil]
+    rw [List.getD_eq_getElem?_getD, List.getElem?_replicate]
+    by_cases hh : h < c.nHosts <;> simp [hh]
+  · intro p hp; simp [Timed.init] at hp
+
+theorem pendingOn_append (S : Timed) (q : Nat × Nat) (h : Nat) :
+    ((S.pending ++ [q]).filter (fun p => p.1 == h)).length = pendingOn S h + (if q.1 = h then 1 else 0) := by
+  unfold pendingOn
+  rw [List.filter_append, List.length_append]
+  by_cases hq : q.1 = h <;> simp [hq]
+
+theorem pendingOn_erase (S : Timed) (q : Nat × Nat) (hq : q ∈ S.pending) (h : Nat) :
+    ((S.pending.erase q).filter (fun p => p.1 == h)).length + (if q.1 = h then 1 else 0) = pendingOn S h := by
+  unfold pendingOn
+  rw [← List.erase_filter]
+  by_cases hh : q.1 = h
+  · have : q ∈ S.pending.filter (fun p => p.1 == h) := List.mem_filter.mpr ⟨hq, by simp [hh]⟩
+    rw [List.length_erase_of_mem this]
+    have : 0 < (S.pending.filter (fun p => p.1 == h)).length := List.length_pos_of_mem this
+    simp only [hh, if_true]
+    omega
+  · have : q ∉ S.pending.filter (fun p => p.1 == h) := by
+      intro hm; have := (List.mem_filter.mp hm).2; simp at this; exact hh this
+    rw [List.erase_of_not_mem this]
+    simp [hh]
+
+theorem twf_tstep (c : Cfg) (ft : Nat) (S S' : Timed) (e : TEvent) (hw : TWF c ft S) (h : tstep c ft S e = some S') :
+    TWF c ft S' := by
+  cases e with
+  | tick d =>
+    simp only [tstep] at h
+    by_cases hc : S.pending.all (fun p => decide (S.now + d ≤ p.2 + ft)) = true
+    · simp only [hc, if_true, Option.some.injEq] at h; subst h
+      refine ⟨hw.base, hw.count, ?_⟩
+      intro p hp
+      have := (List.all_eq_true.mp hc) p hp
+      simpa using this
+    · simp [hc] at h
+  | ev e =>
+    have hother : ∀ e0 : Event, (∀ t a, e0 ≠ .countFail t a) → (∀ hh, e0 ≠ .timer hh) →
+        ∀ b, step c S.base e0 = some b → b.timers = S.base.timers →
+        TWF c ft { S with base := b } := by
+      intro e0 _ _ b hb ht
+      refine ⟨wf_step c S.base b e0 hw.base hb, ?_, hw.notLate⟩
+      intro hh
+      show pendingOn S hh = getN b.timers hh
+      rw [ht]; exact hw.count hh
+    cases e with
+    | countFail t a =>
+      simp only [tstep] at h
+      cases hb : step c S.base (.countFail t a) with
+      | none => simp [hb] at h
+      | some b =>
+        simp only [hb] at h
+        have hwb := wf_step c S.base b _ hw.base hb
+        cases hpc : S.base.pcs[t]? with
+        | none => simp [step, hpc] at hb
+        | some pc =>
+          cases pc with
+          | failed hh =>
+            simp only [hpc, Option.some.injEq] at h; subst h
+            have hlt : hh < c.nHosts := hw.base.hostsOk t _ hpc
+            simp only [step, hpc, Option.some.injEq] at hb
+            by_cases hcf : c.countFails = true
+            · simp only [hcf, if_true] at hb ⊢
+              subst hb
+              refine ⟨hwb, ?_, ?_⟩
+              · intro h'
+                show ((S.pending ++ [(hh, S.now)]).filter (fun p => p.1 == h')).length = getN (bumpN S.base.timers hh) h'
+                rw [pendingOn_append, getN_bumpN, hw.base.lenT, hw.count h']
+                by_cases he : hh = h'
+                · subst he; simp [hlt]
+                · simp [he]
+              · intro p hp
+                rcases List.mem_append.mp hp with hp | hp
+                · exact hw.notLate p hp
+                · simp only [List.mem_singleton] at hp; subst hp; simp
+            · simp only [hcf, Bool.false_eq_true, if_false] at hb ⊢
+              subst hb
+              exact ⟨hwb, hw.count, hw.notLate⟩
+          | idle => simp [step, hpc] at hb
+          | selected _ => simp [step, hpc] at hb
+          | forwarding _ => simp [step, hpc] at hb
+          | done => simp [step, hpc] at hb
+    | timer hh =>
+      simp only [tstep] at h
+      cases hd : dueOf ft S.now hh S.pending with
+      | none => simp [hd] at h
+      | some q =>
+        simp only [hd] at h
+        cases hb : step c S.base (.timer hh) with
+        | none => simp [hb] at h
+        | some b =>
+          simp only [hb, Option.some.injEq] at h; subst h
+          have hwb := wf_step c S.base b _ hw.base hb
+          have hq := List.find?_some hd
+          have hqm := List.mem_of_find?_eq_some hd
+          simp only [Bool.and_eq_true, beq_iff_eq, decide_eq_true_eq] at hq
+          simp only [step] at hb
+          by_cases hpos : getN S.base.timers hh > 0
+          · simp only [hpos, if_true, Option.some.injEq] at hb
+            subst hb
+            have hlt : hh < S.base.timers.length := getN_pos_lt _ _ hpos
+            refine ⟨hwb, ?_, ?_⟩
+            · intro h'
+              show ((S.pending.erase q).filter (fun p => p.1 == h')).length = getN (dropN S.base.timers hh) h'
+              have h1 := pendingOn_erase S q hqm h'
+              rw [getN_dropN, ← hw.count h']
+              by_cases he : hh = h'
+              · subst he
+                simp only [hq.1, if_true] at h1
+                simp only [hlt, and_self, if_true]
+                omega
+              · have : ¬ q.1 = h' := by rw [hq.1]; exact he
+                simp only [this, if_false, Nat.add_zero] at h1
+                simp [he, h1]
+            · intro p hp
+              exact hw.notLate p (List.mem_of_mem_erase hp)
+          · simp [hpos] at hb
+    | select t ch a =>
+      simp only [tstep, Option.map_eq_some_iff] at h
+      obtain ⟨b, hb, rfl⟩ := h
+      refine hother _ (by intro _ _ hh; cases hh) (by intro _ hh; cases hh) b hb ?_
+      have := stepD_timers_select c S.base t ch a
+      simpa [stepD, hb] using this
+    | reserve t =>
+      simp only [tstep, Option.map_eq_some_iff] at h
+      obtain ⟨b, hb, rfl⟩ := h
+      refine hother _ (by intro _ _ hh; cases hh) (by intro _ hh; cases hh) b hb ?_
+      have := stepD_timers_reserve c S.base t
+      simpa [stepD, hb] using this
+    | finish t o =>
+      simp only [tstep, Option.map_eq_some_iff] at h
+      obtain ⟨b, hb, rfl⟩ := h
+      refine hother _ (by intro _ _ hh; cases hh) (by intro _ hh; cases hh) b hb ?_
+      have := stepD_timers_finish c S.base t o
+      simpa [stepD, hb] using this
+    | health f =>
+      simp only [tstep, Option.map_eq_some_iff] at h
+      obtain ⟨b, hb, rfl⟩ := h
+      refine hother _ (by intro _ _ hh; cases hh) (by intro _ hh; cases hh) b hb ?_
+      simp only [step, Option.some.injEq] at hb; subst hb; rfl
+
+theorem twf_trun (c : Cfg) (ft : Nat) : ∀ (es : List TEvent) (S S' : Timed), TWF c ft S → trun c ft S es = some S' → TWF c ft S' := by
+  intro es
+  induction es with
+  | nil => intro S S' hw h; simp only [trun, Option.some.injEq] at h; subst h; exact hw
+  | cons e es ih =>
+    intro S S' hw h
+    simp only [trun] at h
+    cases hs : tstep c ft S e with
+    | none => simp [hs] at h
+    | some S1 =>
+      simp only [hs] at h
+      exact ih S1 S' (twf_tstep c ft S S1 e hw hs) h
+
 end Casket.Accounting
